@@ -21,11 +21,12 @@
       the bound `ctr + 1 + (layer length) < 2^63` (theorem `C11_scan_below_bound`).
     * `Ev`, `Status`, `statusOf`, `Status.expected`: the property's own definition, from the HISTORY of
       notifier calls, of "a host the policy knows and that is up" (independent of the policy lists).
-    * (third round) the token-aware policy's replica tables are refreshed as the code does it: `AddHost` /
-      `RemoveHost` that changed `t.hosts` rebuild the token ring and recompute the table of the SESSION keyspace
-      only (`updateReplicas(meta, getKeyspaceName())`, strategy from the keyspace metadata: SimpleStrategy rf /
-      no usable strategy / unknown keyspace); `KeyspaceChanged(ks)` recomputes the table of `ks`; tables of
-      other keyspaces stay as they are. `Iter` / `TA.openIter` / `TA.nextIter`: the iterator returned by `Pick`
+    * (third round; after the repair of KF-C10-4) the token-aware policy's replica tables are refreshed as the
+      repaired code does it: `AddHost` / `RemoveHost` that changed `t.hosts` rebuild the token ring and recompute
+      the table of the SESSION keyspace and of EVERY other keyspace a table is held for (`updateAllReplicas(meta)`;
+      strategy from the keyspace metadata: SimpleStrategy rf / no usable strategy / unknown keyspace - the last two
+      drop the table); `KeyspaceChanged(ks)` recomputes the table of `ks`. A table installed through the hook
+      (`setReplicas`) therefore lives until the next change of the host list. `Iter` / `TA.openIter` / `TA.nextIter`: the iterator returned by `Pick`
       call by call (several iterators alive at once; the fallback policy's `Pick` happens when an iterator
       leaves its replica phases). `Cow.*`: the atomic steps of `cowHostList.add/remove` run by several threads.
   Core Lean only (compiled into the native driver).
@@ -263,7 +264,8 @@ def TA.new (p : Pol) (shuffle nonlocal partSet : Bool) (sess : Option Nat := non
   { pol := p, shuffle := shuffle, nonlocal := nonlocal, partSet := partSet, hosts := [], replicas := [], sessKs := sess }
 
 /-- `updateReplicas(meta, ks)`: the table of `ks` is recomputed from the CURRENT token ring if the keyspace
-has a usable strategy (and a ring exists), dropped otherwise; the tables of the other keyspaces are kept. -/
+has a usable strategy (and a ring exists), dropped otherwise; the tables of the other keyspaces are kept
+(by this call; `TA.refresh` calls it for every held keyspace). -/
 def TA.updateReplicas (t : TA) (ks : Nat) : TA :=
   let rest := t.replicas.filter (fun e => e.1 != ks)
   match (t.ksMeta.find? (fun e => e.1 == ks)).bind (·.2) with
@@ -272,11 +274,16 @@ def TA.updateReplicas (t : TA) (ks : Nat) : TA :=
     else { t with replicas := rest }
   | none => { t with replicas := rest }
 
-/-- `resetTokenRing` + `updateReplicas(meta, t.getKeyspaceName())` (the ring itself is `ringOf t.hosts`) -/
-def TA.refresh (t : TA) : TA :=
-  match t.sessKs with
-  | some ks => t.updateReplicas ks
-  | none => t
+/-- the keyspaces `updateAllReplicas` recomputes: the session keyspace first, then every other keyspace the
+metadata holds a replica table for (`for ks := range meta.replicas`), each once -/
+def TA.refreshKeys (t : TA) : List Nat :=
+  (match t.sessKs with | some ks => [ks] | none => []) ++
+    (t.replicas.map (·.1)).filter (fun k => t.sessKs != some k)
+
+/-- `resetTokenRing` + `updateAllReplicas(meta)` (the ring itself is `ringOf t.hosts`) — the code after the repair
+of KF-C10-4: the table of the session keyspace AND of every other held keyspace is recomputed from the current
+ring (a keyspace whose schema cannot be read / has no usable strategy loses its table) -/
+def TA.refresh (t : TA) : TA := t.refreshKeys.foldl TA.updateReplicas t
 
 /-- `KeyspaceChanged(update)` -/
 def TA.keyspaceChanged (t : TA) (ks : Nat) : TA := t.updateReplicas ks
@@ -285,12 +292,12 @@ def TA.keyspaceChanged (t : TA) (ks : Nat) : TA := t.updateReplicas ks
 def TA.setMeta (t : TA) (ks : Nat) (v : Option (Option Nat)) : TA :=
   { t with ksMeta := (match v with | some m => [(ks, m)] | none => []) ++ t.ksMeta.filter (fun e => e.1 != ks) }
 
-/-- `AddHost`: `if t.hosts.add(host) { resetTokenRing; updateReplicas(session keyspace) }; fallback.AddHost` -/
+/-- `AddHost`: `if t.hosts.add(host) { resetTokenRing; updateAllReplicas }; fallback.AddHost` -/
 def TA.add (t : TA) (h : Host) : TA :=
   let r := cowAdd t.hosts h
   let t1 : TA := { t with hosts := r.1 }
   { (if r.2 then t1.refresh else t1) with pol := t.pol.add h }
-/-- `RemoveHost`: `if t.hosts.remove(addr) { resetTokenRing; updateReplicas(session keyspace) }; fallback.RemoveHost` -/
+/-- `RemoveHost`: `if t.hosts.remove(addr) { resetTokenRing; updateAllReplicas }; fallback.RemoveHost` -/
 def TA.remove (t : TA) (h : Host) : TA :=
   let r := cowRemove t.hosts h.addr
   let t1 : TA := { t with hosts := r.1 }
